@@ -359,14 +359,24 @@ def gen_spec(rnd: Any) -> str:
             return t
 
 
-def gen_req621(rnd: Any, name: str, spec: str) -> str:
+def gen_req621(rnd: Any, name: str, spec: str, extra_clause: bool = False) -> str:
     t = name
     if rnd.random() < 0.2:
         t += "[" + ",".join(rnd.sample(["x", "Y_z"], rnd.randint(1, 2))) + "]"
     t += spec if rnd.random() < 0.7 else (" (" + spec + ")" if spec else "")
     if rnd.random() < 0.5:
-        t += " ; " + G.marker(rnd, max_leaves=rnd.choice([1, 1, 2, 3]), no_extra=True)
+        m = G.marker(rnd, max_leaves=rnd.choice([1, 1, 2, 3]), no_extra=True)
+        if extra_clause and rnd.random() < 0.15:
+            # a clause that only EXCLUDES an extra: the dependency stays mandatory (regression of poetry-core ad4e259)
+            m = "(" + m + ") and extra != " + toml_free_quote(rnd.choice(EXTRA_NAMES))
+        t += " ; " + m
+    elif extra_clause and rnd.random() < 0.06:
+        t += " ; extra != " + toml_free_quote(rnd.choice(EXTRA_NAMES))
     return t
+
+
+def toml_free_quote(s: str) -> str:
+    return "'" + s + "'"
 
 
 def pep621_pyproject(pr: dict[str, Any]) -> str:
@@ -388,17 +398,19 @@ def gen_project621(rnd: Any) -> dict[str, Any]:
     which ignores marker and extra membership — are the interesting ones)"""
     specs: dict[str, list[str]] = {}
 
-    def entry() -> str:
+    def entry(extra_clause: bool = False) -> str:
         n = rnd.choice(NAMES621)
         prev = specs.setdefault(n, [])
         sp = rnd.choice(prev) if prev and rnd.random() < 0.6 else gen_spec(rnd)
         prev.append(sp)
-        return gen_req621(rnd, n if rnd.random() < 0.8 else n.upper().replace(".", "_"), sp)
+        return gen_req621(rnd, n if rnd.random() < 0.8 else n.upper().replace(".", "_"), sp, extra_clause)
 
-    deps = [entry() for _ in range(rnd.randint(0, 4))]
+    # `extra != …` clauses only in `dependencies` entries: an [optional-dependencies] entry whose own marker mentions
+    # `extra` is printed without its membership clause (to_pep_508: has_extras) — reported, outside the generated domain
+    deps = [entry(True) for _ in range(rnd.randint(0, 4))]
     opt = [(x, [entry() for _ in range(rnd.randint(1, 3))]) for x in rnd.sample(EXTRA_NAMES, rnd.randint(0, 2))]
     if not deps and not opt:
-        deps = [entry()]
+        deps = [entry(True)]
     pr: dict[str, Any] = {"dependencies": deps, "optional": opt, "python": rnd.choice(PY621)}
     pr["toml"] = pep621_pyproject(pr)
     return pr
@@ -547,6 +559,8 @@ CORPUS_621 = [
     mk621(['colorama>=0.4 ; sys_platform == "win32"', 'colorama>=0.4 ; python_version < "3.8"', "tomli>=2.0"],
           [("test", ["pytest>=7.0", "coverage>=7.0"]), ("dev", ["pytest>=7.0", "black>=23.0"])]),
     mk621(["requests>=2", "requests>=2"], []),
+    mk621(["colorama>=0.4 ; extra != 'x'", "foo>=1 ; python_version >= '3.8' and extra != 'docs'", "baz>=1"], []),   # ad4e259
+    mk621(["colorama>=0.4 ; extra != 'x'"], [("x", ["qux>=1"])]),
     mk621(["Django (>=4) ; os_name == 'nt'"], [("a", ["django>=4"]), ("foo-bar", ["DJANGO>=4 ; os_name != 'nt'"])], None),
 ]
 
